@@ -26,7 +26,7 @@ RULE = ('C13\'s generated datasets plus datasets produced by the REAL Merger fro
         'clusters.peakToTrough in ms; channels.rawInd of a merged dataset = each probe\'s original channel '
         'map. non-trivial = distinct exports of merged datasets, or with distance ties, or with spikeless ids.')
 EXHAUSTIVE = {'quick': False, 'thorough': False}
-FLOORS = {'quick': {'evaluations': 380, 'distinct_nontrivial': 150},
+FLOORS = {'quick': {'evaluations': 750, 'distinct_nontrivial': 400},
           'thorough': {'evaluations': 11000, 'distinct_nontrivial': 5000}}
 ASSUMPTIONS = c13.ASSUMPTIONS + ['for an id without spikes the rescaling amplitude is NaN: NaN or zero waveform '
                                  'values are both accepted there; shapes, channel lists, amps (NaN) and depths are '
@@ -37,7 +37,7 @@ NSHARDS = c13.NSHARDS
 
 
 def plan(tier, seed):
-    n, nm = (304, 112) if tier == 'quick' else (10000, 2000)
+    n, nm = (480, 320) if tier == 'quick' else (10000, 2000)
     return [{'shard': i, 'n': NSHARDS, 'seed': seed, 'cases': n // NSHARDS, 'merged': nm // NSHARDS}
             for i in range(NSHARDS)]
 
